@@ -542,8 +542,12 @@ class Exec:
             if step == 1:
                 lo = bound(sl.lower) if sl.lower is not None else z3.IntVal(0)
                 hi = bound(sl.upper) if sl.upper is not None else L
-                if self.entails(z3.And(lo >= 0, hi >= 0)) is not True:
-                    raise Undecided('possibly negative slice bound in ' + ast.unparse(sl))
+                def norm(b):
+                    # Python: a negative bound counts from the end and is clipped at 0; the sign must be decided by the path condition
+                    if self.entails(b >= 0) is True: return b
+                    if self.entails(b < 0) is True: return self.ite(b + L > 0, b + L, z3.IntVal(0))
+                    raise Undecided('slice bound of unknown sign in ' + ast.unparse(sl))
+                lo, hi = norm(lo), norm(hi)
                 lo2 = self.ite(lo < L, lo, L); hi2 = self.ite(hi < L, hi, L)
                 ln = z3.simplify(self.ite(hi2 - lo2 > 0, hi2 - lo2, z3.IntVal(0)))
                 return View(v.base, z3.simplify(v.start + v.step * lo2), v.step, ln)
